@@ -221,6 +221,13 @@ func (r *Runner) Exec(t []string) string {
 	return "bad-op"
 }
 
+// scribble overwrites a buffer that was handed to a Write call: a file must not keep a reference to it
+func scribble(b []byte) {
+	for i := range b {
+		b[i] ^= 0xa5
+	}
+}
+
 // plainReader hides every optional interface of a reader (WriterTo, Seeker, …).
 type plainReader struct{ io.Reader }
 
@@ -236,7 +243,9 @@ func fileOp2(h afero.File, t []string) string {
 		n, err := h.ReadAt(b, atoi64(t[3]))
 		return fmt.Sprintf("bytes=%s err:%s", corr.Hex(b[:n]), ErrClass(err))
 	case "write":
-		n, err := h.Write(corr.UnHex(t[2]))
+		b := corr.UnHex(t[2])
+		n, err := h.Write(b)
+		scribble(b) // the caller's buffer is the caller's again once Write has returned
 		return fmt.Sprintf("n=%d err:%s", n, ErrClass(err))
 	case "writestring":
 		n, err := h.WriteString(string(corr.UnHex(t[2])))
@@ -245,7 +254,9 @@ func fileOp2(h afero.File, t []string) string {
 		n, err := io.Copy(h, plainReader{bytes.NewReader(corr.UnHex(t[2]))})
 		return fmt.Sprintf("n=%d err:%s", n, ErrClass(err))
 	case "writeat":
-		n, err := h.WriteAt(corr.UnHex(t[2]), atoi64(t[3]))
+		b := corr.UnHex(t[2])
+		n, err := h.WriteAt(b, atoi64(t[3]))
+		scribble(b)
 		return fmt.Sprintf("n=%d err:%s", n, ErrClass(err))
 	case "trunc":
 		return fsErr(h.Truncate(atoi64(t[2])))
